@@ -165,6 +165,31 @@ def r2_derivations(ctx):
     e = single_return_expr(ti.node)
     ok = e is not None and sym.canon(e) == sym.canon(sym.parse_expr("(self.dataclass(*row) for row in zip(*tuple((get_vanilla_generator(f) for f in shallow_tuple(self)))))"))
     ctx.ob(ti.where, "rows are produced by zipping all columns in field order", ok, u(e)[:160] if e is not None else "", key="C19-R2|toiter")
+    # the per-column generators zipped above must produce ONE ITEM PER ROW: each iterates the column object itself (its first axis), never a flattened or
+    # re-rendered form of the whole column (zip would silently stop at the shortest / pair characters with rows)
+    vg = ix.func(BD, "get_vanilla_generator")
+    col = vg.params[0]
+    envv = local_env(vg.node)
+    nret = 0
+    for r in body_walk(vg.node):
+        if not isinstance(r, ast.Return) or r.value is None:
+            continue
+        nret += 1
+        v = r.value
+        if isinstance(v, ast.GeneratorExp) and len(v.generators) == 1:
+            gen = v.generators[0]
+            ok = u(gen.iter) == col and not gen.ifs
+            if not ok and not (isinstance(gen.iter, ast.Call) or isinstance(gen.iter, ast.Subscript) or isinstance(gen.iter, ast.Attribute)):
+                raise Unrecognised(f"{vg.where}: column generator iterates `{u(gen.iter)}`")
+        elif isinstance(v, ast.Call) and u(v.func) == f"{col}.toiter" and not v.args:
+            ok = True
+        elif isinstance(v, ast.Call) and u(v.func) == "iter" and len(v.args) == 1:
+            ok = u(v.args[0]) == col
+        else:
+            raise Unrecognised(f"{vg.where}: column generator `{u(v)[:80]}`")
+        ctx.ob(vg.where, "a column's row generator iterates the column itself (one item per row), not a flattened or rendered form of it", ok, u(v)[:100],
+               key=f"C19-R2|row-generator|{u(v)[:40]}")
+    ctx.floor("row generators of get_vanilla_generator", nret, 4)
     ft = ix.func(BD, "BNPDataClass.from_entry_tuples")
     ok = sym.canon(single_return_expr(ft.node)) == sym.canon(sym.parse_expr(f"cls(*(list(c) for c in zip(*{ft.params[1]})))"))
     ctx.ob(ft.where, "from_entry_tuples transposes rows into columns in field order and constructs through the converting constructor", ok, "", key="C19-R2|from_entry_tuples")
